@@ -36,4 +36,7 @@ var corpus = []string{
 	`emit(pcall(coroutine.yield, 1)); emit(coroutine.status(coroutine.create(function() end)))`,
 	`local inner = coroutine.wrap(function() coroutine.yield("i1"); coroutine.yield("i2") end); local outer = coroutine.wrap(function() coroutine.yield(inner()); coroutine.yield(inner()); coroutine.yield("o3") end); emit(outer(), outer(), outer())`,
 	`local co = coroutine.create(function() local x = 0; while true do x = x + 1; coroutine.yield(x) end end); for i = 1, 4 do emit(coroutine.resume(co)) end; local co2 = coroutine.create(function() local y = 100; coroutine.yield(y); y = y + 1; coroutine.yield(y) end); emit(coroutine.resume(co2)); emit(coroutine.resume(co)); emit(coroutine.resume(co2))`,
+	// resume of a thread made by coroutine.wrap; a Go function as a body that yields (also Go-side in boundary.go)
+	`local th; local w = coroutine.wrap(function(...) th = coroutine.running(); local a = coroutine.yield(1); return a end); emit(w()); emit(coroutine.resume(th, 5)); emit(coroutine.status(th))`,
+	`local w = coroutine.wrap(coroutine.yield); emit(w(1)); emit(pcall(w, 2, 3)); emit(pcall(w, 3)); local co = coroutine.create(coroutine.yield); emit(coroutine.resume(co, 1, 2)); emit(coroutine.status(co)); emit(coroutine.resume(co, 7, 8)); emit(coroutine.status(co))`,
 }
